@@ -574,6 +574,76 @@ fn run(ctx: &mut Ctx) {
     }
     derived(ctx, &arena);
     let huge_pal = Arena::new(20);
+    // equality of two typed views: decided by the declared bytes only, never by the alignment padding
+    ctx.bound("equality", "the DST kinds that implement PartialEq (command line, loader name, module, memory map, SMBIOS, ELF sections, EFI map, framebuffer): for every declared size FIXED..=FIXED+3*ELEM+9 that the kind accepts, two images with equal declared bytes and different padding must compare equal, and two images that differ in the last declared byte must compare unequal");
+    {
+        let second = Arena::new(2);
+        macro_rules! eq_kind {
+            ($kname:expr, $t:ty) => {{
+                let kind = KINDS.iter().find(|k| k.name == $kname).unwrap();
+                for size in kind.fixed..=kind.fixed + 3 * kind.elem + 9 {
+                    if (size - kind.fixed) % kind.elem != 0 {
+                        continue;
+                    }
+                    let fbvar = 0xFFu8;
+                    let a = image(kind, size as u32, round8(size) - 8, fbvar);
+                    for variant in 0..2 {
+                        // variant 0: same declared bytes, other padding; variant 1: last declared byte differs
+                        let mut b = a.clone();
+                        if variant == 0 {
+                            if round8(size) == size {
+                                continue;
+                            }
+                            for i in size..b.len() {
+                                b[i] = !a[i] | 1;
+                            }
+                        } else {
+                            if size == kind.fixed {
+                                continue;
+                            }
+                            b[size - 1] ^= 0x40;
+                        }
+                        let describe = || J::obj().set("part", "equality").set("kind", kind.name).set("declared_size", size).set("second_image", ["same declared bytes, different padding", "last declared byte differs"][variant]).set("a", J::hex(&a)).set("b", J::hex(&b));
+                        ctx.leaf(describe, |ctx| {
+                            ctx.state_direct();
+                            ctx.nontrivial();
+                            arena.fill(arena::FILL_A);
+                            second.fill(arena::FILL_B);
+                            let pa = arena.place_right(&a);
+                            let pb = second.place_right(&b);
+                            let sa: &[u8] = unsafe { std::slice::from_raw_parts(pa, a.len()) };
+                            let sb: &[u8] = unsafe { std::slice::from_raw_parts(pb, b.len()) };
+                            let r = ctx.call("cast + ==", || {
+                                let ta = Generic::ref_from_slice(sa).unwrap().cast::<$t>();
+                                let tb = Generic::ref_from_slice(sb).unwrap().cast::<$t>();
+                                (ta == tb, tb == ta, ta == ta)
+                            });
+                            match r {
+                                Out::Panic => ctx.class("equality:refused"),
+                                Out::Val((ab, ba, aa)) => {
+                                    ctx.ob("eq", ab as u64);
+                                    let want = variant == 0;
+                                    if ab != want || ba != want || !aa {
+                                        ctx.violation(&format!("c05/equality/{}", kind.name), || format!("{} tags of size {}, {}: a == b is {}, b == a is {}, a == a is {}", kind.name, size, ["equal declared bytes and different padding", "different last declared byte"][variant], ab, ba, aa));
+                                    } else {
+                                        ctx.class("equality:ok");
+                                    }
+                                }
+                            }
+                        });
+                    }
+                }
+            }};
+        }
+        eq_kind!("Cmdline", CommandLineTag);
+        eq_kind!("BootLoaderName", BootLoaderNameTag);
+        eq_kind!("Module", ModuleTag);
+        eq_kind!("Mmap", MemoryMapTag);
+        eq_kind!("Smbios", SmbiosTag);
+        eq_kind!("ElfSections", ElfSectionsTag);
+        eq_kind!("EfiMmap", EFIMemoryMapTag);
+        eq_kind!("Framebuffer", FramebufferTag);
+    }
     // indexed framebuffer: stored colour counts whose byte length crosses 8-, 16- and 17-bit boundaries, on small tags
     ctx.bound("palette_counts", "indexed framebuffer tags of size 34..=64 and 802, 65570 x stored colour count in {0..=12, 85, 86, 255, 256, 257, 21845, 21846, 21847, 32768, 43690, 43691, 43692, 65534, 65535}: the palette is handed out only when 34 + 3 x count fits the declared size, at offset 34 with 3 x count bytes");
     for size in (34usize..=64).chain([802, 65570]) {
